@@ -306,7 +306,8 @@ func run(p *propCfg, tier string, seed int64, replay string, determinism bool, s
 		go func(w int) {
 			defer wg.Done()
 			per := perWorker
-			if p.OnePerProcess {
+			onePer := p.OnePerProcess || (extraBin != "" && w%4 == 3 && p.ExtraOnePerProcess)
+			if onePer {
 				per = 1
 			} else if !p.Enumerate && per > 3000 {
 				// a fresh process every few thousand runs: goroutines still blocked when a run ends
@@ -339,8 +340,8 @@ func run(p *propCfg, tier string, seed int64, replay string, determinism bool, s
 					"SIM_TIER=" + tier,
 				}
 				wd := time.Duration(left+p.WatchdogSlackS) * time.Second
-				if p.OnePerProcess {
-					wd = time.Duration(p.WatchdogSlackS) * time.Second
+				if onePer {
+					wd = time.Duration(max(p.WatchdogSlackS, 180)) * time.Second
 				}
 				wbin := bin
 				if extraBin != "" && w%4 == 3 {
